@@ -463,3 +463,9 @@ Proof.
   - exists [Include [97%N]]. split; reflexivity.
   - exists [Include [97%N]], [97%N]. repeat split. left; auto.
 Qed.
+
+(* the real file server hands the inclusion functions and the parser the content on disk unchanged for every
+   name that is not in the embedded table (no text-layer treatment at the byte layer) *)
+Lemma real_lookup_verbatim : forall (A : Type) (std : list (text * A)) disk name,
+  assoc name std = None -> real_lookup std disk name = disk name.
+Proof. intros. unfold real_lookup. rewrite H. reflexivity. Qed.
